@@ -394,6 +394,57 @@ func init() {
 			}
 			return out
 		}})
+	// S12: as S6, with adds that are REFUSED (wrong dimension, after the id was drawn) on one
+	// instance while other instances draw ids: whatever a refused add does with the id it
+	// drew, every id handed out stays unique
+	vScenarios = append(vScenarios, &vScenario{Prop: "C11", Name: "ids/S12-auto-ids-refused-adds",
+		Body: func(x *vSchedExec) {
+			mk := func() HybridSearchIndex {
+				f, _ := NewFlatIndex(2, Euclidean)
+				return NewHybridSearchIndex(f, NewBM25SearchIndex(), NewRoaringMetadataIndex())
+			}
+			a, b := mk(), mk()
+			x.Spawn("A", func() {
+				x.Op("A", "RefusedAdd", func() ([]uint32, error) {
+					id, err := a.Add([]float32{1, 0, 0}, "t", nil)
+					return []uint32{id}, err
+				})
+				x.Op("A", "AutoAdd", func() ([]uint32, error) { id, err := a.Add([]float32{1, 0}, "t", nil); return []uint32{id}, err })
+			})
+			x.Spawn("B", func() {
+				x.Op("B", "AutoAdd", func() ([]uint32, error) { id, err := b.Add([]float32{0, 1}, "u", nil); return []uint32{id}, err })
+				x.Op("B", "AutoAdd", func() ([]uint32, error) { id, err := b.Add([]float32{0, 1}, "u", nil); return []uint32{id}, err })
+			})
+			x.Spawn("C", func() {
+				x.Op("C", "RefusedAdd", func() ([]uint32, error) {
+					id, err := b.Add([]float32{1, 0}, "v", map[string]interface{}{"bad": []int{1}})
+					return []uint32{id}, err
+				})
+				x.Op("C", "NewVectorNode", func() ([]uint32, error) { return []uint32{NewVectorNode([]float32{1}).ID()}, nil })
+			})
+			x.Join()
+		},
+		Judge: func(x *vSchedExec) [][3]string {
+			seen := map[uint32]string{}
+			var out [][3]string
+			for _, e := range x.events {
+				if e.Op == "RefusedAdd" {
+					if e.Err == "" {
+						out = append(out, [3]string{"invalid-add-accepted", e.Op, fmt.Sprint(e.IDs)})
+					}
+					continue
+				}
+				if e.Err != "" {
+					out = append(out, [3]string{"spurious-failure", e.Op, e.Err})
+					continue
+				}
+				if o, dup := seen[e.IDs[0]]; dup || e.IDs[0] == 0 {
+					out = append(out, [3]string{"auto-id-not-unique", "", fmt.Sprintf("id %d returned by %s and %s", e.IDs[0], o, e.Thread+":"+e.Op)})
+				}
+				seen[e.IDs[0]] = e.Thread + ":" + e.Op
+			}
+			return out
+		}})
 	vInitStoreScenarios()
 }
 
